@@ -20,6 +20,24 @@ Definition os0 : list op :=
 
 (* C02_step_refines: its hypotheses hold of a concrete state and operation, and both sides
    of its conclusion are the same concrete pool *)
+Example ex_step_refines :
+  let st := load grow_double [f0] in
+  sepb st = true /\ erase_pool [f0] = abs_state st /\
+  exists ops, compile O0 [f0] (OTail 0 2) = Some ops /\ length ops = 1 /\
+    abs_state (fold_left (l2_step grow_double) ops st)
+    = [[(key_a, [CI KInt 1; CNil; CI KInt 3]); (key_b, [CS key_a; CB true; CNil])];
+       [(key_a, [CNil; CI KInt 3]); (key_b, [CB true; CNil])]] /\
+    erase_pool (snd (step O0 [f0] (OTail 0 2)))
+    = abs_state (fold_left (l2_step grow_double) ops st).
+Proof.
+  cbv zeta. split; [vm_compute; reflexivity|]. split; [vm_compute; reflexivity|].
+  eexists. split; [vm_compute; reflexivity|].
+  split; [vm_compute; reflexivity|]. split; vm_compute; reflexivity.
+Qed.
+
+(* C02_histories_refine / C02_l1_run: the history compiles (to 20 slice-level operations),
+   the pool is well formed, and - computed, not deduced - the slice-level run is separated
+   at the end and shows the 12 frames of the L1 run *)
 Example ex_history_hyps :
   wf_pool [f0] = true /\ run_ok O0 [f0] os0 = true /\ compiles_all O0 [f0] os0 = true /\
   uncovered_any O0 [f0] os0 = false.
@@ -31,5 +49,7 @@ Example ex_history_run :
     length (run O0 [f0] os0) = 12 /\
     nth_opt (erase_pool (run O0 [f0] os0)) 1 = Some [(key_a, [CB true]); (key_b, [CS key_a])].
 Proof.
-  eexists. split; [vm_compute; reflexivity|]. repeat split; vm_compute; reflexivity.
+  eexists. split; [vm_compute; reflexivity|].
+  split; [vm_compute; reflexivity|]. split; [vm_compute; reflexivity|].
+  split; [vm_compute; reflexivity|]. split; vm_compute; reflexivity.
 Qed.
